@@ -30,7 +30,24 @@ _FIXED = [
     bytes.fromhex("7ea00c0102011027a00201e7de7e"), bytes.fromhex("7ea00c0102011027a00201e7df7e"),  # short frame: good / bad FCS
 ]
 
+_IDENTS = [b"/ELL5\\253833635_A", b"/ISk5\\2MT382-1000", b"/LGF5E360", b"/KFM5KAIFA-METER", b"/ABC5\\W\\3x"]
+
+
+@st.composite
+def damaged_readout_st(draw):
+    """An identification line with one octet replaced by a drawn octet (mostly >= 0x80), optionally completed to a readout."""
+    ident = bytearray(draw(st.sampled_from(_IDENTS)))
+    pos = draw(st.integers(1, len(ident) - 1))
+    ident[pos] = draw(st.one_of(st.integers(0x80, 0xFF), st.sampled_from([0xE9, 0xB2, 0xAA, 0xB5, 0xC0, 0xFF, 0x85, 0xA0, 0x21, 0x2F])))
+    if draw(st.booleans()):
+        ident.insert(pos, 0x5C)  # a backslash in front of it
+    body = draw(st.sampled_from([b"", b"\r\n", b"1-0:1.7.0(1*kW)\r\n", b"\r\n1-0:1.8.0(00001605.055*kWh)\r\n"]))
+    end = draw(st.sampled_from([b"!\r\n", b"!\r\n", b"", b"!0000\r\n", b"!12"]))
+    return bytes(ident) + b"\r\n" + body + end
+
+
 token_st = st.one_of(
+    damaged_readout_st(),
     st.sampled_from(_FIXED),
     st.sampled_from(_FIXED),
     st.binary(min_size=0, max_size=12),
